@@ -4,7 +4,7 @@
  *
  * usage: conc <dbdir> <workload-seed> <sched-seed> <mode:0 random|1 pct> <writers> <readers> <ops> <valsize> <flags>
  *   flags: bit0 sync writes mixed in, bit1 a compaction thread, bit2 snapshot readers, bit3 batches with marker keys,
- *          bit4 iterator readers
+ *          bit4 iterator readers, bit5 one write in four carries a 140-340 KB value (group-commit size limit)
  * Output (stdout):
  *   thr <tid> <role> <index>
  *   inv <tid> <n> <op> <args> @<step>        ret <tid> <n> <result> @<step>
@@ -87,6 +87,8 @@ static void writer_thread(void *arg) {
     uint64_t r = rnd_at(1, wi, i); int kj = (int)(r % KEYS_PER_WRITER); int sync = (g_flags & 1) && ((r >> 8) % 4 == 0); int rc;
     ldb_writeopt_t wo = *ldb_writeopt_default; ldb_slice_t ks, vs;
     int size = g_valsize > 0 ? (int)(16 + (r >> 16) % (uint64_t)g_valsize) : 16;
+    /* bit5: now and then a value far above the 128 KiB group-commit allowance, queued between small writes */
+    if ((g_flags & 32) && (r >> 52) % 4 == 0) size = 140000 + (int)((r >> 30) % 200000);
     wo.sync = sync;
     if ((g_flags & 8) && (r >> 40) % 3 == 0) {
       /* batch: the same new version on every key of this writer (atomicity marker) */
